@@ -1,5 +1,6 @@
 """C02 - word wrapping keeps every character, in order, with its own style."""
 from rv.core.runner import WL
+from rv.monitor.poison import poison_text
 from rv.gen import strings as S
 from rv.gen import styles as G
 from rv.model import cellref
@@ -66,7 +67,9 @@ def gen_case(rng, unique=True):
     width = rng.choice([2, 2, 3, 3, 4, 5, 6, 7, 8, 10, 12, 12, rng.randint(2, 40), rng.randint(2, 200)])
     return {"text": text, "spans": spans, "base": base, "width": width,
             "justify": rng.choice(JUSTIFY), "overflow": rng.choice(OVERFLOW) if rng.random() < 0.6 else "fold",
-            "no_wrap": rng.random() < 0.15, "tab_size": rng.choice([8, 4, 2]), "unique": unique}
+            "no_wrap": rng.random() < 0.15, "tab_size": rng.choice([8, 4, 2]), "unique": unique,
+            "mode_route": rng.choice(["args", "args", "args", "own", "conflict"]),
+            "own_mode": (rng.choice(JUSTIFY), rng.choice(OVERFLOW), rng.random() < 0.3)}
 
 
 def make_text(case, rng):
@@ -74,7 +77,21 @@ def make_text(case, rng):
     spans = [Span(a, b, G.build(rec) if rng.random() < 0.5 else G.definition(rec))
              for rec, a, b in case["spans"]]
     base = case["base"]
-    return Text(case["text"], style=G.build(base) if base else "", spans=spans)
+    t = Text(case["text"], style=G.build(base) if base else "", spans=spans)
+    # where the wrapping mode comes from: the arguments of wrap() (default), the Text's own attributes (wrap() is
+    # then called without them), or both - differing - in which case the explicit arguments decide
+    route = case.get("mode_route", "args")
+    if route == "own":
+        t.justify, t.overflow, t.no_wrap = case["justify"], case["overflow"], case["no_wrap"]
+    elif route == "conflict":
+        t.justify, t.overflow, t.no_wrap = case["own_mode"]
+    return t
+
+
+def wrap_args(case):
+    if case.get("mode_route") == "own":
+        return {"justify": None, "overflow": None, "no_wrap": None}
+    return {"justify": case["justify"], "overflow": case["overflow"], "no_wrap": case["no_wrap"]}
 
 
 def nonblank(s):
@@ -109,11 +126,20 @@ def check_one(ctx, rng, case, primary=True):
     wit = {"text": case["text"], "spans": [(G.definition(r), a, b) for r, a, b in case["spans"]],
            "base": G.definition(case["base"]) if case["base"] else None, "width": width,
            "justify": case["justify"], "overflow": case["overflow"], "no_wrap": case["no_wrap"],
-           "tab_size": case["tab_size"]}
+           "tab_size": case["tab_size"], "mode_route": case.get("mode_route", "args"),
+           "text_own_mode(justify, overflow, no_wrap)": case.get("own_mode") if case.get("mode_route") == "conflict" else None}
     before = TV.char_styles(make_text(case, rng), console())
     before_map = {c: v for c, v in before if not c.isspace()}
-    lines = text.wrap(console(), width, justify=case["justify"], overflow=case["overflow"],
-                      tab_size=case["tab_size"], no_wrap=case["no_wrap"])
+    if rng.random() < 0.15:
+        # an earlier wrap of an equal text whose lines the caller then edits
+        first = make_text(case, rng).wrap(console(), width, tab_size=case["tab_size"], **wrap_args(case))
+        for line in list(first):
+            poison_text(line)
+        while len(first):
+            first.pop()
+        ctx.count("mon.result_poisoning")
+    lines = text.wrap(console(), width, tab_size=case["tab_size"], **wrap_args(case))
+    ctx.hist("mode_route", case.get("mode_route", "args"))
     lines = list(lines)
     fold = case["overflow"] == "fold" and not case["no_wrap"]
     ctx.hist("mode", "%s/%s%s" % (case["justify"], case["overflow"], "/no_wrap" if case["no_wrap"] else ""))
